@@ -646,8 +646,58 @@ PATTERNS = (("cores2", "endpoint", "none"), ("none", "cores1", "endpoint0"),
             ("endpoint", "cores2", "cores1"), ("cores1", "none", "cores2"))
 
 
+def h_tree_iter(ctx):
+    """Iterating a routing tree (what the dead-link repair does to find the
+    chips of a severed subtree) yields the node, every tree node below it and
+    every other child object exactly once -- for every shape of up to three
+    levels, the children of a node in every order (childless hops, longer
+    subtrees and vertex objects mixed), at symbolic chips."""
+    from rig.place_and_route.routing_tree import RoutingTree
+    from rig.routing_table import Routes
+    KINDS = ("hop", "chain", "fork", "vertex")
+    made = []
+
+    def node():
+        t = RoutingTree((ctx.int("x", 0, 9), ctx.int("y", 0, 9)))
+        made.append(t)
+        return t
+
+    def build(kind):
+        if kind == "vertex":
+            v = object()
+            made.append(v)
+            return v
+        t = node()
+        if kind == "chain":
+            c = node()
+            t.children.append((Routes.east, c))
+            if ctx.choose(2):
+                c.children.append((Routes.north, node()))
+        elif kind == "fork":
+            t.children.append((Routes.north, node()))
+            c = node()
+            c.children.append((Routes.east, node()))
+            t.children.append((Routes.east, c))
+        return t
+    root = node()
+    n = 2 + ctx.choose(2)
+    dirs = (Routes.east, Routes.north, Routes.west)
+    for i in range(n):
+        root.children.append((dirs[i], build(ctx.pick(KINDS))))
+    got = list(root)
+    ctx.observe(len(got), len(made))
+    ctx.witness("iterated")
+    ids = [id(o) for o in got]
+    ctx.prove(len(ids) == len(set(ids)), "tree-iteration-repeats-a-node",
+              (len(ids), len(set(ids))))
+    ctx.prove(set(ids) == set(id(o) for o in made),
+              "tree-iteration-misses-a-node", (len(set(ids)), len(made)))
+    ctx.prove(got and got[0] is root, "tree-iteration-node-not-first")
+
+
 def units(tier, seed):
-    us = []
+    us = [Unit("routing tree iteration, every shape of up to three levels",
+               h_tree_iter, {}, split=3, witnesses=("iterated",))]
     n = [0]
     thorough = tier == "thorough"
 
